@@ -20,20 +20,15 @@ fn compute_intersection(
     s: &Coord<f64>,
     e: &Coord<f64>,
 ) -> Coord<f64> {
-    let dc = Coord {
-        x: cp1.x - cp2.x,
-        y: cp1.y - cp2.y,
-    };
-    let dp = Coord {
-        x: s.x - e.x,
-        y: s.y - e.y,
-    };
-    let n1 = cp1.x * cp2.y - cp1.y * cp2.x;
-    let n2 = s.x * e.y - s.y * e.x;
-    let n3 = 1.0 / (dc.x * dp.y - dc.y * dp.x);
+    // Signed areas of the subject edge end points (cp1, cp2) against the clipping edge (s, e).
+    // The caller guarantees they lie on different sides, so t is in [0, 1] and the division is
+    // well conditioned even for almost parallel edges.
+    let d1 = (e.x - s.x) * (cp1.y - s.y) - (e.y - s.y) * (cp1.x - s.x);
+    let d2 = (e.x - s.x) * (cp2.y - s.y) - (e.y - s.y) * (cp2.x - s.x);
+    let t = d1 / (d1 - d2);
     Coord {
-        x: (n1 * dp.x - n2 * dc.x) * n3,
-        y: (n1 * dp.y - n2 * dc.y) * n3,
+        x: cp1.x + t * (cp2.x - cp1.x),
+        y: cp1.y + t * (cp2.y - cp1.y),
     }
 }
 
